@@ -145,6 +145,11 @@ def check_sequence_unpack(ctx, sq):
                 if len(ups) != 1 or len(apps) != 1:
                     ctx.violation(rule, fi, st[:300], 'each iteration must parse exactly one element and append it (%d parses, %d appends)' % (len(ups), len(apps)), lp.lineno, clause='c')
                     continue
+                stored_list = [e for e in effs if e.kind == 'setattr' and canon(e.name) == 'self.field_name']
+                recv = apps[0].call.func.value if isinstance(apps[0].call.func, ast.Attribute) else None
+                if recv is None or not stored_list or canon(recv) != canon(stored_list[0].value):
+                    ctx.violation(rule, fi, st[:300], 'elements are appended to %s, which is not the list stored under the field name (%s)' % (canon(recv) if recv is not None else '?', canon(stored_list[0].value) if stored_list else '?'), lp.lineno, clause='a')
+                    continue
                 if bp.effects.index(apps[0]) < bp.effects.index(ups[0]):
                     ctx.violation(rule, fi, st[:300], 'the element is appended before it is parsed (stale scratch value)', lp.lineno, clause='c')
                     continue
@@ -388,6 +393,9 @@ def check_normalisers(ctx):
     for p in w.paths(fi.node):
         gt = gtexts(p)
         r = p.ret()
+        if p.raises():
+            kinds.add('reject')
+            continue
         if ('callable(%s)' % P) in gt and not any(g.startswith('not callable(%s)' % P) for g in gt) and not any('isinstance(%s' % P in g and not g.startswith('not ') for g in gt):
             kinds.add('callable')
             if r is None or canon(r) != P:
